@@ -279,8 +279,8 @@ Ltac open_rules :=
   cbn [app sgl_rules].
 
 Ltac open_outside H :=
-  unfold outside_known_discrepancies, disc_D1_chacha_pairing, disc_D2_key_len_truncated, disc_D3_sgl_total_wraps,
-         disc_D4_cbcs_key_len, disc_D6_sm4_key_len, disc_D8_docsis_offset_wraps in H;
+  unfold outside_known_discrepancies, disc_D2_key_len_truncated, disc_D3_sgl_total_wraps,
+         disc_D8_docsis_offset_wraps in H;
   try match goal with HU : uses_sgl_array _ = true |- _ => rewrite HU in H end;
   repeat match type of H with (_ && _ = true) => apply andb_true_iff in H; destruct H as [H ?] end.
 
@@ -903,7 +903,7 @@ Proof.
 Qed.
 
 (* The unrestricted statements, kept visible; the first and the third are FALSE on the unchanged
-   tree (refuted below by concrete jobs = documentation-vs-code discrepancies D1..D4, D6, D8). *)
+   tree (refuted below by concrete jobs = documentation-vs-code discrepancies D2, D3, D8). *)
 Definition validate_sound_statement : Prop :=
   forall j, well_formed j = true -> is_job_invalid j = None -> job_ok j = true.
 Definition validate_errno_names_a_violation_statement : Prop :=
@@ -1252,27 +1252,18 @@ Definition wit_errno_zuc_truncated_key : job_view := mk_job_view
 
 Ltac refute_sound w := exists w; vm_compute; repeat split; reflexivity.
 
-Theorem validate_sound_refuted_D1_chacha_pairing :
-  exists j, well_formed j = true /\ is_job_invalid j = None /\ job_ok j = false /\ violations j = [IMB_ERR_HASH_ALGO].
-Proof. refute_sound wit_D1_chacha_pairing. Qed.
 Theorem validate_sound_refuted_D2_key_len_truncated :
   exists j, well_formed j = true /\ is_job_invalid j = None /\ job_ok j = false /\ violations j = [IMB_ERR_JOB_KEY_LEN].
 Proof. refute_sound wit_D2_key_len_truncated. Qed.
 Theorem validate_sound_refuted_D3_sgl_total_wraps :
   exists j, well_formed j = true /\ is_job_invalid j = None /\ job_ok j = false /\ violations j = [IMB_ERR_JOB_CIPH_LEN].
 Proof. refute_sound wit_D3_sgl_total_wraps. Qed.
-Theorem validate_sound_refuted_D4_cbcs_key_len :
-  exists j, well_formed j = true /\ is_job_invalid j = None /\ job_ok j = false /\ violations j = [IMB_ERR_JOB_KEY_LEN].
-Proof. refute_sound wit_D4_cbcs_key_len. Qed.
-Theorem validate_sound_refuted_D6_sm4_key_len :
-  exists j, well_formed j = true /\ is_job_invalid j = None /\ job_ok j = false /\ violations j = [IMB_ERR_JOB_KEY_LEN].
-Proof. refute_sound wit_D6_sm4_key_len. Qed.
 Theorem validate_sound_refuted_D8_docsis_offset_wraps :
   exists j, well_formed j = true /\ is_job_invalid j = None /\ job_ok j = false /\ violations j = [IMB_ERR_JOB_SRC_OFFSET].
 Proof. refute_sound wit_D8_docsis_offset_wraps. Qed.
 Theorem validate_sound_statement_is_false : ~ validate_sound_statement.
 Proof.
-  intros H. specialize (H wit_D1_chacha_pairing). vm_compute in H. specialize (H eq_refl eq_refl). discriminate.
+  intros H. specialize (H wit_D2_key_len_truncated). vm_compute in H. specialize (H eq_refl eq_refl). discriminate.
 Qed.
 Theorem validate_errno_refuted_zuc_truncated_key :
   exists j, well_formed j = true /\ is_job_invalid j = Some IMB_ERR_JOB_IV_LEN /\ violations j = [IMB_ERR_JOB_KEY_LEN].
@@ -1282,6 +1273,14 @@ Proof.
   intros H. specialize (H wit_errno_zuc_truncated_key IMB_ERR_JOB_IV_LEN). vm_compute in H.
   specialize (H eq_refl eq_refl). destruct H as [H|[]]. discriminate.
 Qed.
+
+(* repaired upstream (abc1c04, 84bae2a, 6544d54): the former D1 / D4 / D6 witnesses are now rejected *)
+Example former_D1_witness_now_rejected : is_job_invalid wit_D1_chacha_pairing = Some IMB_ERR_HASH_ALGO.
+Proof. vm_compute. reflexivity. Qed.
+Example former_D4_witness_now_rejected : is_job_invalid wit_D4_cbcs_key_len = Some IMB_ERR_JOB_KEY_LEN.
+Proof. vm_compute. reflexivity. Qed.
+Example former_D6_witness_now_rejected : is_job_invalid wit_D6_sm4_key_len = Some IMB_ERR_JOB_KEY_LEN.
+Proof. vm_compute. reflexivity. Qed.
 
 (* ---- the hypotheses are satisfiable ---- *)
 Example valid_cbc_hmac_sha1_is_ok :
